@@ -82,6 +82,8 @@ FIXED = [
     "<math><mrow intent='foo(('><mi>x</mi><mo>+</mo><mn>1</mn></mrow><mo>=</mo><msup intent='power($b,$e)'><mi arg='b'>y</mi><mn arg='e'>2</mn></msup></math>",
     "<math><mfrac intent='$n:$'><mi arg='n'>a</mi><mi>b</mi></mfrac><mo>-</mo><mi intent='::'>c</mi></math>",
     "<math><msup intent='transpose($m)'><mi arg='m'>M</mi><mi>T</mi></msup><mo>+</mo><mrow intent='binomial($n,$k)'><mo>(</mo><mfrac linethickness='0'><mi arg='n'>n</mi><mi arg='k'>k</mi></mfrac><mo>)</mo></mrow></math>",
+    # property-only intents (the attribute is taken off the live tree while the content is matched) above illegal and legal values
+    "<math><mi>a</mi><mo>=</mo><msqrt intent=':blank'><mi intent='g('>x</mi></msqrt><mo>+</mo><mrow intent=':literal'><mi>p</mi><mo>-</mo><mfrac intent='zorble($u)'><mn arg='u'>3</mn><mi>q</mi></mfrac></mrow><mo>+</mo><msup intent=':zib:foo-bar'><mi>t</mi><mn intent='7 8'>2</mn></msup></math>",
     # ClearSpeak preferences: absolute value, matrices, sets, parentheses, capital letters, bars, primes, implied times
     "<math><mrow><mo>|</mo><mi>x</mi><mo>-</mo><mn>2</mn><mo>|</mo></mrow><mo>+</mo><mrow><mo>(</mo><mtable><mtr><mtd><mn>1</mn></mtd><mtd><mi>B</mi></mtd></mtr><mtr><mtd><mi>c</mi></mtd><mtd><mn>4</mn></mtd></mtr></mtable><mo>)</mo></mrow></math>",
     "<math><mo>{</mo><mi>x</mi><mo>|</mo><mi>x</mi><mo>&gt;</mo><mn>0</mn><mo>}</mo><mo>&#x2282;</mo><mrow><mo>(</mo><mn>2</mn><mo>,</mo><mn>5</mn><mo>]</mo></mrow><mo>,</mo><mover><mi>z</mi><mo>&#xAF;</mo></mover><mo>,</mo><msup><mi>f</mi><mo>&#x2032;</mo></msup><mrow><mo>(</mo><mi>X</mi><mo>)</mo></mrow></math>",
@@ -101,7 +103,7 @@ FIXED = [
 # indexes into FIXED by the mechanism they aim at (used to steer the palette of a history towards the preferences it switches)
 NUMBER_EXPRS = FIXED[2:8]
 FRACTION_EXPRS = FIXED[0:2] + FIXED[9:11]
-INTENT_EXPRS = FIXED[14:17]
+INTENT_EXPRS = FIXED[14:18]
 CHAR_EXPRS = FIXED[11:14]
 
 
